@@ -231,3 +231,41 @@ Definition minute_events (days : list (Z * list Z * list Z)) : list sev :=
                        minute_day (S (S (length chg))) d (fun _ => mins) (fun k m => existsb (Z.eqb m) (skipn k chg)) O None true end) days.
 Definition chk_minute_run (days : list (Z * list Z * list Z)) (end_date : Z) (observed : list pev) : bool :=
   pevs_eq (exec_run (minute_events days) end_date) observed.
+
+(* ---- sizing and validation (C15 C16) ---- *)
+From RQ Require Import Model.Sizing Model.Validators.
+Definition side_eqb (a b : side) : bool := match a, b with Buy, Buy | Sell, Sell => true | _, _ => false end.
+Definition effect_eqb (a b : effect) : bool := match a, b with Open, Open | Close, Close | CloseToday, CloseToday => true | _, _ => false end.
+Definition intent_eq (a b : option intent) : bool :=
+  match a, b with
+  | None, None => true
+  | Some (Intent s e q), Some (Intent s' e' q') => side_eqb s s' && effect_eqb e e' && approx q q'
+  | _, _ => false
+  end.
+Fixpoint intents_eq (a b : list intent) : bool :=
+  match a, b with [], [] => true | x :: s, y :: t => intent_eq (Some x) (Some y) && intents_eq s t | _, _ => false end.
+Definition stock_fee_fn (sc : scost) (is_cs : bool) (price : Q) : Z -> Q := fun a => order_cost sc is_cs false price (zq a).
+(* order_shares / order_lots / order / order_to with auto_switch_order_value *)
+Definition shares_auto_intent (i : sins) (amount quantity : Q) (auto : bool) (cash price : Q) (fee : Z -> Q) (closable : Q) : option intent :=
+  match order_shares_intent i amount quantity with
+  | Some (Intent Buy Open q) =>
+      if auto && qlt_b cash (qadd (qmul price q) (fee (qtrunc q))) then order_value_intent i cash cash price fee closable quantity
+      else Some (Intent Buy Open q)
+  | r => r
+  end.
+Definition chk_intent (model observed : option intent) : bool := intent_eq model observed.
+Definition legs_of (l : list (side * effect * Q)) : list intent := map (fun x => match x with (s, e, q) => Intent s e q end) l.
+Definition chk_legs (model : option (list intent)) (observed : list intent) : bool :=
+  match model with None => match observed with [] => true | _ => false end | Some l => intents_eq l observed end.
+Definition vreason_eqb (a b : vreason) : bool :=
+  match a, b with
+  | VPositionToday, VPositionToday | VPosition, VPosition | VLimitUp, VLimitUp | VLimitDown, VLimitDown | VNotListing, VNotListing
+  | VSuspended, VSuspended | VCash, VCash | VSelfTrade, VSelfTrade => true
+  | _, _ => false
+  end.
+Definition chk_validate (g : vcfg) (x : vctx) (o : vorder) (observed : option vreason) : bool :=
+  match validate g x o, observed with
+  | None, None => true
+  | Some a, Some b => vreason_eqb a b
+  | _, _ => false
+  end.
